@@ -60,6 +60,14 @@ def _impl(tier, seed, search):
         L.close('q2r(-q)', b.q2r(-uq), b.q2r(uq), 1e-12, 1.0, dict(q=uq))
         ok, r = L.noraise('UQ==-UQ', lambda: UnitQuaternion(uq) == UnitQuaternion(-uq), dict(q=uq), 'q == -q')
         if ok: L.check('UQ==-UQ', r is True or r == True, dict(q=uq), 'q and -q (the same rotation) do not compare equal', observed=r)
+        # the angle/axis read from a unit quaternion of either sign builds the same rotation again, in every class
+        for sq in (uq, -uq):
+            ok, r = L.noraise('UQ.angvec', lambda: UnitQuaternion(sq, norm=False, check=False).angvec(), dict(q=sq), 'UnitQuaternion.angvec()')
+            if ok and r[1] is not None and np.all(np.isfinite(np.r_[r[0], np.asarray(r[1], float)])) and float(np.linalg.norm(r[1])) > 0:
+                ok2, r2 = L.noraise('AngVec(UQ.angvec)', lambda: (SO3.AngVec(r[0], r[1]).A, UnitQuaternion.AngVec(r[0], r[1]).R), dict(q=sq), 'AngVec(*q.angvec())')
+                if ok2:
+                    L.close('SO3.AngVec(*q.angvec())', r2[0], b.q2r(sq), TOL, 1.0, dict(q=sq), what='the angle and axis reported by UnitQuaternion.angvec() do not describe the rotation of q', sig='UQ.angvec')
+                    L.close('UQ.AngVec(*q.angvec())', r2[1], b.q2r(sq), TOL, 1.0, dict(q=sq), sig='UQ.angvec')
         # conversions are homomorphisms: SO3 <-> UQ
         A, B = SO3(R, check=False), SO3(R2, check=False)
         ok, r = L.noraise('UQ(X*Y)', lambda: (UnitQuaternion(A * B).R, (UnitQuaternion(A) * UnitQuaternion(B)).R), dict(X=R, Y=R2), 'UnitQuaternion(X*Y)')
